@@ -71,6 +71,14 @@ func (c *Ctx) DeviateCost(cost []int, label string) int {
 	return c.answer(len(cost), label, true, cost)
 }
 
+// Prefix returns the answers this execution is going to replay before it
+// falls back to the default answer (for bodies that run the execution in
+// another process and report its points back).
+func (c *Ctx) Prefix() []int { return append([]int{}, c.prefix...) }
+
+// Replay returns a context that replays prefix and answers 0 afterwards.
+func Replay(prefix []int) *Ctx { return &Ctx{prefix: append([]int{}, prefix...)} }
+
 // Vector returns the answers given in this execution.
 func (c *Ctx) Vector() []int {
 	v := make([]int, len(c.Trace))
